@@ -60,6 +60,7 @@ type c14Point struct {
 	Node     int    `json:"node"`
 	Call     int    `json:"call"`
 	Partial  int    `json:"partial"`
+	Call2    int    `json:"call2,omitempty"` // second crash of the same node (cumulative call number)
 	What     string `json:"what,omitempty"`
 }
 
@@ -84,6 +85,8 @@ type c14Out struct {
 	Boot     []int
 	Trace    []string
 	Restarts int
+	Recovery int    // mutating calls of the restart after the first crash
+	Crashed2 string // where the second crash hit, if one was planned and reached
 }
 
 // runC14 executes one scenario with an optional crash plan.
@@ -186,6 +189,24 @@ func runC14(sc *c14Scenario, plan *sim.CrashPlan, record bool) c14Out {
 			}
 			restarted = true
 			out.Restarts++
+			out.Recovery = c.FsCalls[plan.Node] - plan.Call
+			if plan.Call2 > 0 && c.CrashedAt2 != "" {
+				// the node was killed again while (or right after) recovering
+				out.Crashed2 = c.CrashedAt2
+				if c.Nodes[plan.Node].Alive {
+					c.Apply(sim.Event{K: "crash", N: plan.Node})
+				}
+				c.Nodes[plan.Node].ConstructErr, c.Nodes[plan.Node].Fatal = "", ""
+				if err := c.Apply(sim.Event{K: "restart", N: plan.Node}); err != nil {
+					out.Sig, out.Detail = "infra", err.Error()
+					return out
+				}
+				out.Restarts++
+				if !check("second restart after crashes at " + c.CrashedAt + " and " + c.CrashedAt2) {
+					return out
+				}
+				break
+			}
 			if !check("restart after crash at " + c.CrashedAt) {
 				return out
 			}
@@ -221,6 +242,7 @@ type c14Result struct {
 	Outcomes map[string]int `json:"outcomes"`
 	Fails    []c14Fail      `json:"fails"`
 	Deadline bool           `json:"deadline"`
+	Nested   int            `json:"nested"`
 }
 
 type c14Fail struct {
@@ -318,6 +340,37 @@ func c14Worker() {
 		} else {
 			res.Outcomes["ok:call-not-reached"]++
 		}
+		// second level: the node is killed again at every mutating call of its
+		// recovery (the restart after the first crash), then restarted once more
+		if o.Sig == "" && o.Crashed != "" && pt.Partial < 0 {
+			for k2 := pt.Call + 1; k2 <= pt.Call+o.Recovery; k2++ {
+				if time.Now().UnixNano() > dl {
+					res.Deadline = true
+					break
+				}
+				o2 := runC14(sc, &sim.CrashPlan{Node: pt.Node, Call: pt.Call, Partial: pt.Partial, Call2: k2}, false)
+				res.Runs++
+				res.Nested++
+				if o2.Crashed2 != "" {
+					res.Crashed++
+				}
+				p2 := pt
+				p2.Call2 = k2
+				p2.What = o2.Crashed + " then " + o2.Crashed2
+				if o2.Sig != "" {
+					sig := o2.Sig
+					if !seen[sig] {
+						seen[sig] = true
+						res.Fails = append(res.Fails, c14Fail{sig, o2.Detail, p2})
+					}
+					res.Outcomes["fail:"+sig]++
+				} else if o2.Crashed2 != "" {
+					res.Outcomes["ok:second-crash-during-recovery"]++
+				} else {
+					res.Outcomes["ok:second-call-not-reached"]++
+				}
+			}
+		}
 	}
 	b, _ := json.Marshal(&res)
 	os.Stdout.Write(b)
@@ -351,6 +404,7 @@ func init() {
 				return 2
 			}
 			total.Runs += r.Runs
+			total.Nested += r.Nested
 			total.Crashed += r.Crashed
 			total.Deadline = total.Deadline || r.Deadline
 			for k, v := range r.Outcomes {
@@ -365,7 +419,7 @@ func init() {
 		for _, f := range best {
 			sc := &c14Scenarios[f.Point.Scenario]
 			for i := 0; i < 3; i++ {
-				o := runC14(sc, &sim.CrashPlan{Node: f.Point.Node, Call: f.Point.Call, Partial: f.Point.Partial}, false)
+				o := runC14(sc, &sim.CrashPlan{Node: f.Point.Node, Call: f.Point.Call, Partial: f.Point.Partial, Call2: f.Point.Call2}, false)
 				if o.Sig != f.Sig {
 					fmt.Printf("INFRA: crash point %+v failed with %q then %q\n", f.Point, f.Sig, o.Sig)
 					return 2
@@ -384,9 +438,9 @@ func init() {
 		}
 		ev := &common.Evidence{PropertyID: prop, Tier: tier, Seed: common.Seed(), Level: "fault_enumeration", WallS: time.Since(t0).Seconds(), Violations: len(rep.Violations),
 			Coverage: map[string]any{"evaluations": total.Runs, "distinct_nontrivial": total.Crashed,
-				"rule":    "for each scripted cluster schedule on the real file-backed storages: every mutating file-system call (mkdir, create, temp file, write, truncate, rename, remove) issued by every node after its boot is a crash point (kill before the call = kill after the previous one; one extra point after the last call; writes additionally with torn prefixes); the node is restarted over the same directory at once, nodes the script left down are restarted, then 150 fault-free heartbeat intervals follow; oracle: constructors and Start succeed, no fatal exit or panic, safety monitors (C01, C02, C06, C07, C08, C10) hold throughout, one leader, a fresh operation completes and every member reaches the leader's applied sequence; non-trivial = runs in which the planned call was reached and the node was killed there (each crash point is distinct by construction)",
-				"samples": samples, "scenarios": info, "crash_points": len(pts), "outcomes": total.Outcomes, "exhaustive": !total.Deadline},
-			Assumptions: []string{"process-crash fault model (completed calls durable, in-flight write leaves a prefix); one crash per run; the crashed node is restarted immediately", "fixed scripted schedules (8 scenarios) under canonical goroutine scheduling"}}
+				"rule":    "for each scripted cluster schedule on the real file-backed storages: every mutating file-system call (mkdir, create, temp file, write, truncate, rename, remove) issued by every node after its boot is a crash point (kill before the call = kill after the previous one; one extra point after the last call; writes additionally with torn prefixes); the node is restarted over the same directory at once (second level: and killed again at every mutating call of that restart, then restarted once more), nodes the script left down are restarted, then 150 fault-free heartbeat intervals follow; oracle: constructors and Start succeed, no fatal exit or panic, safety monitors (C01, C02, C06, C07, C08, C10) hold throughout, one leader, a fresh operation completes and every member reaches the leader's applied sequence; non-trivial = runs in which the planned call was reached and the node was killed there (each crash point is distinct by construction)",
+				"samples": samples, "scenarios": info, "crash_points": len(pts), "second_level_runs": total.Nested, "outcomes": total.Outcomes, "exhaustive": !total.Deadline},
+			Assumptions: []string{"process-crash fault model (completed calls durable, in-flight write leaves a prefix); one crash per run plus, for every crash point, a second crash of the same node at every mutating call of its recovery; the crashed node is restarted immediately", "fixed scripted schedules (11 scenarios) under canonical goroutine scheduling"}}
 		if err := ev.Write(); err != nil {
 			fmt.Println("INFRA:", err)
 			return 2
@@ -401,7 +455,7 @@ func init() {
 			return 2
 		}
 		defer os.RemoveAll(filepath.Join(scratchDir(), fmt.Sprintf("verif-c14.%d", os.Getpid())))
-		o := runC14(&c14Scenarios[pt.Scenario], &sim.CrashPlan{Node: pt.Node, Call: pt.Call, Partial: pt.Partial}, false)
+		o := runC14(&c14Scenarios[pt.Scenario], &sim.CrashPlan{Node: pt.Node, Call: pt.Call, Partial: pt.Partial, Call2: pt.Call2}, false)
 		if o.Sig == "" {
 			fmt.Println("replay finished without a violation; crashed at:", o.Crashed)
 			return 0
